@@ -27,6 +27,11 @@ fn ops(thorough: bool) -> Vec<String> {
         "UPDATE t SET s = 'zz' WHERE id = 2",
         "UPDATE t SET id = id + 10 WHERE id = 3",
         "UPDATE t SET w = 999 WHERE id = 1",
+        // NULL transitions of the UNIQUE column and of the indexed column (value -> NULL, NULL -> value)
+        "UPDATE t SET w = NULL WHERE id = 1",
+        "UPDATE t SET w = 100 WHERE id = 4",
+        "UPDATE t SET v = NULL WHERE id = 2",
+        "UPDATE t SET v = 20 WHERE id = 4",
         "DELETE FROM t WHERE id = 1",
         "DELETE FROM t WHERE v = 10",
         "DELETE FROM t WHERE v > 15",
